@@ -183,6 +183,46 @@ func Wide(t *rapid.T) any {
 	return a
 }
 
+// SizedValue draws a value one of whose dimensions - string length, key length, number of elements or members, depth - is a
+// power of two between 8 and 2048, or one less, or one more.
+func SizedValue(t *rapid.T) any {
+	n := (8 << uint(sim.Intn(t, 9, "pow"))) + sim.Intn(t, 3, "delta") - 1
+	switch sim.Intn(t, 6, "dim") {
+	case 0:
+		return []any{repeatTo("0123456789", n), Scalar(t)}
+	case 1:
+		return map[string]any{repeatTo("kkkkkkkkk_", n): Scalar(t), "b": []any{map[string]any{repeatTo("qqqq ", n): nil, "z": int64(1)}}}
+	case 2:
+		a := make([]any, n)
+		for i := range a {
+			a[i] = int64(i % 10)
+		}
+		return a
+	case 3:
+		m := make(map[string]any, n)
+		for i := 0; i < n; i++ {
+			m["m"+string(rune('a'+i%26))+string(rune('a'+i/26%26))+string(rune('a'+i/676))] = int64(i % 3)
+		}
+		return m
+	case 4:
+		if n > 600 {
+			n = 255 + n%3
+		}
+		var v any = Scalar(t)
+		for i := 0; i < n; i++ {
+			if i%2 == 0 {
+				v = []any{v}
+			} else {
+				v = map[string]any{"d": v}
+			}
+		}
+		return v
+	default: // rows of equal shape whose cells have the size (aligned layouts)
+		cell := repeatTo("c", n%140)
+		return []any{[]any{cell, int64(1), "x"}, []any{"y", int64(22), cell}, []any{cell + "!", int64(333), ""}}
+	}
+}
+
 // Deep draws a narrow but deep tree (depth beyond the writers' indentation tables).
 func Deep(t *rapid.T, depth int) any {
 	var v any = Scalar(t)
